@@ -88,6 +88,9 @@ fn check_e1303_vehicle_breaks_time_is_correct(ctx: &ValidationContext) -> Result
                             VehicleBreak::Optional { time: VehicleOptionalBreakTime::TimeWindow(tw), .. } => {
                                 Some(get_time_window_from_vec(tw))
                             }
+                            VehicleBreak::Optional { time: VehicleOptionalBreakTime::TimeOffset(offset), .. } => {
+                                (offset.len() != 2).then_some(None)
+                            }
                             VehicleBreak::Required {
                                 time: VehicleRequiredBreakTime::OffsetTime { earliest, latest },
                                 duration,
